@@ -5,6 +5,7 @@ import (
 	"go/ast"
 	"go/token"
 	"go/types"
+	"sort"
 	"strings"
 
 	"bebopverif/internal/core"
@@ -38,11 +39,13 @@ func branchSelectors(p *load.Prog, fd *ast.FuncDecl, conds []string, a, b string
 		if !ok {
 			return true
 		}
-		cs := wire.Canon(ifs.Cond)
+		// the condition is the enum's Unsigned field, whatever the variable is called
 		hit := false
-		for _, c := range conds {
-			if cs == c {
-				hit = true
+		if sel, ok := ast.Unparen(ifs.Cond).(*ast.SelectorExpr); ok {
+			for _, c := range conds {
+				if sel.Sel.Name == c {
+					hit = true
+				}
 			}
 		}
 		if !hit || ifs.Else == nil {
@@ -76,8 +79,8 @@ func checkC15(c *core.Ctx) {
 		fn    string
 		conds []string
 	}{
-		{"File.Validate", []string{"en.Unsigned"}},
-		{"Enum.Generate", []string{"en.Unsigned"}},
+		{"File.Validate", []string{"Unsigned"}},
+		{"Enum.Generate", []string{"Unsigned"}},
 	} {
 		fd := p.FuncDecl(pkg, cfgx.fn)
 		if fd == nil {
@@ -89,44 +92,113 @@ func checkC15(c *core.Ctx) {
 		c.Check("R1", cfgx.fn+" picks the enum value member by signedness", p.Pos(fd.Pos()), n > 0 && len(bad) == 0, strings.Join(bad, "; "))
 	}
 	if fd := p.FuncDecl(pkg, "readEnumOptionValue"); fd != nil {
-		// if uinttype { ParseUint; return 0, v, nil } else { ParseInt; return v, 0, nil }
-		ok := false
+		// if <bool parameter> { ParseUint; return 0, v, nil } else { ParseInt; return v, 0, nil }
+		params := map[types.Object]bool{}
+		for _, f := range fd.Type.Params.List {
+			for _, nm := range f.Names {
+				if o := info.ObjectOf(nm); o != nil {
+					if b, isB := o.Type().Underlying().(*types.Basic); isB && b.Kind() == types.Bool {
+						params[o] = true
+					}
+				}
+			}
+		}
+		// which strconv parser a branch calls, and which result slot carries the value
+		branch := func(n ast.Node) (parsers map[string]bool, slots map[int]bool) {
+			parsers, slots = map[string]bool{}, map[int]bool{}
+			ast.Inspect(n, func(m ast.Node) bool {
+				switch x := m.(type) {
+				case *ast.CallExpr:
+					if cal := load.Callee(info, x); cal != nil && cal.Pkg() != nil && cal.Pkg().Path() == "strconv" {
+						parsers[cal.Name()] = true
+					}
+				case *ast.ReturnStmt:
+					if len(x.Results) == 3 && wire.Canon(x.Results[2]) == "nil" {
+						for i := 0; i < 2; i++ {
+							if tv := info.Types[x.Results[i]]; tv.Value == nil {
+								slots[i] = true
+							}
+						}
+					}
+				}
+				return true
+			})
+			return
+		}
+		ok, found := false, false
 		ast.Inspect(fd.Body, func(m ast.Node) bool {
 			ifs, is := m.(*ast.IfStmt)
-			if !is || wire.Canon(ifs.Cond) != "uinttype" || ifs.Else == nil {
+			if !is || ifs.Else == nil {
 				return true
 			}
+			id, is := ast.Unparen(ifs.Cond).(*ast.Ident)
+			if !is || !params[info.ObjectOf(id)] {
+				return true
+			}
+			// the flag that selects between ParseUint and ParseInt
+			tp, ts := branch(ifs.Body)
+			ep, es := branch(ifs.Else)
+			if !tp["ParseUint"] && !tp["ParseInt"] {
+				return true
+			}
+			found = true
 			sites++
-			ts, es := srcOf(p, ifs.Body), srcOf(p, ifs.Else)
-			okT := strings.Contains(ts, "strconv.ParseUint(") && !strings.Contains(ts, "strconv.ParseInt(") && strings.Contains(ts, "return 0, optInteger, nil")
-			okE := strings.Contains(es, "strconv.ParseInt(") && !strings.Contains(es, "strconv.ParseUint(") && strings.Contains(es, "return optInteger, 0, nil")
+			okT := tp["ParseUint"] && !tp["ParseInt"] && ts[1] && !ts[0]
+			okE := ep["ParseInt"] && !ep["ParseUint"] && es[0] && !es[1]
 			ok = okT && okE
 			return false
 		})
-		c.Check("R1", "readEnumOptionValue parses and returns the value in the member matching signedness", p.Pos(fd.Pos()), ok, "unsigned enums must go through ParseUint into the second result, signed ones through ParseInt into the first")
+		c.Check("R1", "readEnumOptionValue parses and returns the value in the member matching signedness", p.Pos(fd.Pos()), found && ok, "unsigned enums must go through ParseUint into the second result, signed ones through ParseInt into the first")
 	} else {
 		c.Undecide("readEnumOptionValue not found")
 	}
 	if fd := p.FuncDecl(pkg, "evaluateBitflagExpr"); fd != nil {
+		// every value-carrying return puts an unsigned evaluation in the second
+		// result and a signed one in the first, the other being the constant 0
 		okAll := true
 		n := 0
+		var why []string
 		ast.Inspect(fd.Body, func(m ast.Node) bool {
 			r, is := m.(*ast.ReturnStmt)
 			if !is || len(r.Results) != 3 {
 				return true
 			}
-			a, b := wire.Canon(r.Results[0]), wire.Canon(r.Results[1])
-			if a == "0" && b == "0" {
+			c0, c1 := info.Types[r.Results[0]].Value != nil, info.Types[r.Results[1]].Value != nil
+			if c0 && c1 {
 				return true
 			}
 			n++
-			if !((a == "0" && b == "uint64(uval)") || (a == "int64(val)" && b == "0")) {
+			if !c0 && !c1 {
 				okAll = false
+				why = append(why, p.Pos(r.Pos())+": both value results are computed")
+				return true
+			}
+			slot := 0
+			if c0 {
+				slot = 1
+			}
+			// the operand under the widening conversion has the evaluator's integer type
+			inner := ast.Unparen(r.Results[slot])
+			if call, isC := inner.(*ast.CallExpr); isC && len(call.Args) == 1 {
+				if tv := info.Types[call.Fun]; tv.IsType() {
+					inner = ast.Unparen(call.Args[0])
+				}
+			}
+			b, isB := info.TypeOf(inner).Underlying().(*types.Basic)
+			if !isB || b.Info()&types.IsInteger == 0 {
+				okAll = false
+				why = append(why, p.Pos(r.Pos())+": the value returned is not an integer evaluation")
+				return true
+			}
+			unsigned := b.Info()&types.IsUnsigned != 0
+			if unsigned != (slot == 1) {
+				okAll = false
+				why = append(why, fmt.Sprintf("%s: a %s evaluation is returned in result %d", p.Pos(r.Pos()), b.Name(), slot))
 			}
 			return true
 		})
 		sites++
-		c.Check("R1", "evaluateBitflagExpr returns the result in the member matching signedness", p.Pos(fd.Pos()), okAll && n >= 7, fmt.Sprintf("%d value-carrying returns inspected", n))
+		c.Check("R1", "evaluateBitflagExpr returns the result in the member matching signedness", p.Pos(fd.Pos()), okAll && n >= 7, fmt.Sprintf("%d value-carrying returns inspected; %s", n, strings.Join(why, "; ")))
 	}
 	for _, ev := range []struct{ fn, member, other string }{{"evaluateBitflagExpSigned", "Value", "UintValue"}, {"evaluateBitflagExprUnsigned", "UintValue", "Value"}} {
 		fd := p.FuncDecl(pkg, ev.fn)
@@ -134,11 +206,20 @@ func checkC15(c *core.Ctx) {
 			c.Undecide("%s not found", ev.fn)
 			continue
 		}
-		src := srcOf(p, fd.Body)
 		sites++
-		c.Check("R1", ev.fn+" looks identifiers up in ."+ev.member, p.Pos(fd.Pos()), strings.Contains(src, "T(o."+ev.member+")") && !strings.Contains(src, "o."+ev.other), "an identifier in a flag expression must evaluate to the member the enum's signedness populates")
+		members := map[string]int{}
+		ast.Inspect(fd.Body, func(m ast.Node) bool {
+			if sel, is := m.(*ast.SelectorExpr); is && (sel.Sel.Name == "Value" || sel.Sel.Name == "UintValue") {
+				if t := info.TypeOf(sel.X); t != nil && strings.HasSuffix(t.String(), ".EnumOption") {
+					members[sel.Sel.Name]++
+				}
+			}
+			return true
+		})
+		c.Check("R1", ev.fn+" looks identifiers up in ."+ev.member, p.Pos(fd.Pos()), members[ev.member] > 0 && members[ev.other] == 0,
+			fmt.Sprintf("an identifier in a flag expression must evaluate to the member the enum's signedness populates; members read: %v", members))
 		// the four operators map to the four Go operators
-		ops := map[string]string{"tokenKindAmpersand": "lhs & rhs", "tokenKindVerticalBar": "lhs | rhs", "tokenKindDoubleCaretLeft": "lhs << rhs", "tokenKindDoubleCaretRight": "lhs >> rhs"}
+		ops := map[string]token.Token{"tokenKindAmpersand": token.AND, "tokenKindVerticalBar": token.OR, "tokenKindDoubleCaretLeft": token.SHL, "tokenKindDoubleCaretRight": token.SHR}
 		okOps := true
 		ast.Inspect(fd.Body, func(m ast.Node) bool {
 			cc, is := m.(*ast.CaseClause)
@@ -146,14 +227,29 @@ func checkC15(c *core.Ctx) {
 				return true
 			}
 			if want, tracked := ops[wire.Canon(cc.List[0])]; tracked {
-				if len(cc.Body) != 1 || !strings.Contains(srcOf(p, cc.Body[0]), "return "+want+", nil") {
+				good := false
+				if len(cc.Body) == 1 {
+					if r, isR := cc.Body[0].(*ast.ReturnStmt); isR && len(r.Results) == 2 && wire.Canon(r.Results[1]) == "nil" {
+						if be, isB := ast.Unparen(r.Results[0]).(*ast.BinaryExpr); isB && be.Op == want {
+							_, lid := ast.Unparen(be.X).(*ast.Ident)
+							_, rid := ast.Unparen(be.Y).(*ast.Ident)
+							good = lid && rid && wire.Canon(be.X) != wire.Canon(be.Y)
+						}
+					}
+				}
+				if !good {
 					okOps = false
 				}
 				delete(ops, wire.Canon(cc.List[0]))
 			}
 			return true
 		})
-		c.Check("R1", ev.fn+" maps & | << >> to the same Go operators", p.Pos(fd.Pos()), okOps && len(ops) == 0, fmt.Sprintf("operators without a matching arm: %v", ops))
+		var left []string
+		for k := range ops {
+			left = append(left, k)
+		}
+		sort.Strings(left)
+		c.Check("R1", ev.fn+" maps & | << >> to the same Go operators", p.Pos(fd.Pos()), okOps && len(ops) == 0, fmt.Sprintf("operators without a matching arm: %v", left))
 	}
 	c.Count("signedness_sites", sites)
 	c.Floor("signedness_sites", 6)
@@ -178,16 +274,55 @@ func checkC15(c *core.Ctx) {
 			}
 			return true
 		})
-		src := srcOf(p, fd.Body)
-		ok := shifts[1] == 8 && shifts[2] == 16 && shifts[3] == 24 && len(shifts) == 3 && strings.Contains(src, "uint32(data[0])")
-		c.Check("R2", "bytesToOpCode packs four bytes little-endian", p.Pos(fd.Pos()), ok, fmt.Sprintf("shift by index: %v (want 1:8 2:16 3:24, byte 0 unshifted)", shifts))
+		// every byte of the parameter is used, byte 0 outside any shift
+		used := map[int]bool{}
+		ast.Inspect(fd.Body, func(m ast.Node) bool {
+			if ix, is := m.(*ast.IndexExpr); is {
+				if _, isArr := info.TypeOf(ix.X).Underlying().(*types.Array); isArr {
+					if v, okc := constInt(info, ix.Index); okc {
+						used[v] = true
+					}
+				}
+			}
+			return true
+		})
+		_, zeroShifted := shifts[0]
+		ok := shifts[1] == 8 && shifts[2] == 16 && shifts[3] == 24 && len(shifts) == 3 && used[0] && !zeroShifted && len(used) == 4
+		c.Check("R2", "bytesToOpCode packs four bytes little-endian", p.Pos(fd.Pos()), ok, fmt.Sprintf("shift by index: %v, bytes used: %v (want 1:8 2:16 3:24, byte 0 unshifted)", shifts, used))
 	} else {
 		c.Undecide("bytesToOpCode not found")
 	}
 	if fd := p.FuncDecl(pkg, "readOpCode"); fd != nil {
-		src := srcOf(p, fd.Body)
-		c.Check("R2", "readOpCode parses integer opcodes as 32-bit, any base", p.Pos(fd.Pos()), strings.Contains(src, "strconv.ParseUint(content, 0, 32)"), "")
-		c.Check("R2", "readOpCode requires exactly four bytes for string opcodes", p.Pos(fd.Pos()), strings.Contains(src, "len(tk.concrete) != 4") && strings.Contains(src, "bytesToOpCode(*(*[4]byte)(tk.concrete))"), "")
+		parse32, lenTest, packs := false, false, false
+		ast.Inspect(fd.Body, func(m ast.Node) bool {
+			switch x := m.(type) {
+			case *ast.CallExpr:
+				if cal := load.Callee(info, x); cal != nil {
+					if cal.Pkg() != nil && cal.Pkg().Path() == "strconv" && cal.Name() == "ParseUint" && len(x.Args) == 3 {
+						base, ok1 := constInt(info, x.Args[1])
+						bits, ok2 := constInt(info, x.Args[2])
+						if ok1 && ok2 && base == 0 && bits == 32 {
+							parse32 = true
+						}
+					}
+					if cal.Name() == "bytesToOpCode" {
+						packs = true
+					}
+				}
+			case *ast.IfStmt:
+				// if len(<text>) != 4 { return error }
+				if be, is := ast.Unparen(x.Cond).(*ast.BinaryExpr); is && be.Op == token.NEQ && endsInReturn(x.Body) {
+					if call, isC := ast.Unparen(be.X).(*ast.CallExpr); isC && wire.Canon(call.Fun) == "len" {
+						if v, okc := constInt(info, be.Y); okc && v == 4 {
+							lenTest = true
+						}
+					}
+				}
+			}
+			return true
+		})
+		c.Check("R2", "readOpCode parses integer opcodes as 32-bit, any base", p.Pos(fd.Pos()), parse32, "no strconv.ParseUint(_, 0, 32)")
+		c.Check("R2", "readOpCode requires exactly four bytes for string opcodes", p.Pos(fd.Pos()), lenTest && packs, fmt.Sprintf("length test against 4 with an error return: %v; packed by bytesToOpCode: %v", lenTest, packs))
 	}
 
 	// ---- R3 literal pass-through + constant formats
@@ -195,12 +330,27 @@ func checkC15(c *core.Ctx) {
 		var rhs []string
 		ast.Inspect(fd.Body, func(m ast.Node) bool {
 			as, is := m.(*ast.AssignStmt)
-			if is && len(as.Lhs) == 1 && wire.Canon(as.Lhs[0]) == "cons.Value" {
-				if tv := info.Types[as.Rhs[0]]; tv.Value != nil {
-					rhs = append(rhs, strings.Trim(tv.Value.ExactString(), `"`))
+			if !is || len(as.Lhs) != 1 || len(as.Rhs) != 1 {
+				return true
+			}
+			sel, isSel := as.Lhs[0].(*ast.SelectorExpr)
+			if !isSel || sel.Sel.Name != "Value" {
+				return true
+			}
+			if t := info.TypeOf(sel.X); t == nil || !strings.HasSuffix(t.String(), ".Const") {
+				return true
+			}
+			if tv := info.Types[as.Rhs[0]]; tv.Value != nil {
+				rhs = append(rhs, strings.Trim(tv.Value.ExactString(), `"`))
+			} else if call, isC := ast.Unparen(as.Rhs[0]).(*ast.CallExpr); isC && wire.Canon(call.Fun) == "string" && len(call.Args) == 1 {
+				// string(<token>.concrete): the literal's own text
+				if cs, isS := ast.Unparen(call.Args[0]).(*ast.SelectorExpr); isS && cs.Sel.Name == "concrete" {
+					rhs = append(rhs, "string(tk.concrete)")
 				} else {
 					rhs = append(rhs, wire.Canon(as.Rhs[0]))
 				}
+			} else {
+				rhs = append(rhs, wire.Canon(as.Rhs[0]))
 			}
 			return true
 		})
@@ -245,8 +395,30 @@ func checkC15(c *core.Ctx) {
 func pendingTypestateOnly(c *core.Ctx, p *load.Prog, fd *ast.FuncDecl) {
 	tmp := core.NewCtx(c.Prop, c.Tier, c.RepoDir, c.VerifDir)
 	pendingTypestate(tmp, p, fd, "ReadFile")
+	// the pending opcode is the variable that receives readOpCode's result
+	opVar := ""
+	ast.Inspect(fd.Body, func(n ast.Node) bool {
+		if as, ok := n.(*ast.AssignStmt); ok && len(as.Rhs) == 1 && len(as.Lhs) >= 1 {
+			if call, ok := as.Rhs[0].(*ast.CallExpr); ok && wire.Canon(call.Fun) == "readOpCode" {
+				if id, ok := as.Lhs[0].(*ast.Ident); ok && id.Name != "_" {
+					opVar = id.Name
+				}
+			}
+		}
+		return true
+	})
+	if opVar == "" {
+		c.Undecide("ReadFile: no variable receives the result of readOpCode")
+		return
+	}
+	kept := 0
+	defer func() {
+		c.Count("opcode_typestate_obligations", kept)
+		c.Floor("opcode_typestate_obligations", 2)
+	}()
 	for _, o := range tmp.Obls {
-		if strings.Contains(strings.ToLower(o.Key), "opcode") {
+		if strings.Contains(o.Key, "pending "+opVar+" ") {
+			kept++
 			rule := strings.TrimPrefix(o.Rule, c.Prop+"/")
 			c.Check("R6", o.Key+" ["+rule+"]", o.Pos, o.OK, o.Msg)
 		}
@@ -281,20 +453,9 @@ func formatRules(c *core.Ctx, p *load.Prog) {
 	}
 	c.Count("constant_emit_sites", n)
 	c.Floor("constant_emit_sites", 8)
-	if fd := p.FuncDecl(pkg, "Const.Generate"); fd != nil {
-		src := strings.Join(strings.Fields(srcOf(p, fd.Body)), " ")
-		c.Check("R3", "Const.Generate emits name = value with %v of the unmodified text", p.Pos(fd.Pos()), strings.Contains(src, `writeLine(ew, "\t%s = %v", exposeName(con.Name, settings), con.Value)`), src)
-	}
-	if fd := p.FuncDecl(pkg, "Enum.Generate"); fd != nil {
-		src := strings.Join(strings.Fields(srcOf(p, fd.Body)), " ")
-		c.Check("R4", "Enum.Generate declares the type over the enum's base type", p.Pos(fd.Pos()), strings.Contains(src, `writeLine(w, "type %s %s", exposedName, en.SimpleType)`), src)
-		c.Check("R4", "Enum.Generate emits typed members with %d of the value", p.Pos(fd.Pos()),
-			strings.Contains(src, `writeLine(w, "\t%s_%s %s = %d", exposedName, opt.Name, exposedName, opt.UintValue)`) && strings.Contains(src, `writeLine(w, "\t%s_%s %s = %d", exposedName, opt.Name, exposedName, opt.Value)`), src)
-	}
-	if fd := p.FuncDecl(pkg, "writeOpCode"); fd != nil {
-		src := strings.Join(strings.Fields(srcOf(p, fd.Body)), " ")
-		c.Check("R2", "writeOpCode emits the opcode value in hex", p.Pos(fd.Pos()), strings.Contains(src, `writeLine(w, "const %sOpCode = 0x%x", exposeName(name, settings), opCode)`), src)
-	}
+	// The exact formats (name = value, typed members, 0x%x) are not matched as
+	// text: R4 folds these emitters over probe schemas and compares the go/types
+	// values of what they emit with the schema's values.
 }
 
 // constValueProbe folds the generator over probe schemas and compares the
